@@ -6,8 +6,8 @@
       swap 0/0/0 (`C15_swap_counts`, `C15_swap_face_count`, `C15_swap_edge_count`, vertices in `C15_swap_cells`);
       outer cut: `C15_cutOuter_face_count` (+2 triangles for 1 triangle + 3 spare darts: `len' + 2 = len`),
       `C15_cutOuter_edge_count`, `C15_cutOuter_vertex_count` / `C15_cutOuter_vertices`;
-      inner cut: `C15_cutInner_face_count` / `C15_cutInner_faces`, `C15_cutInner_vertex_count` / `C15_cutInner_vertices`;
-      interior midpoint collapse: `C15_collapse_midpoint_face_count`.
+      inner cut: `C15_cutInner_face_count` / `C15_cutInner_faces`, `C15_cutInner_edge_count`, `C15_cutInner_vertex_count` /
+      `C15_cutInner_vertices`; interior midpoint collapse: `C15_collapse_midpoint_face_count`, `C15_collapse_midpoint_edge_count`.
       (A spare dart is a vertex, an edge and a face of its own for the iterators: `len' + k = len` with `k` spare cells
       absorbed; the MESH changes by +1 V, +2 E, +1 F / +1 V, +3 E, +2 F / −2 F.)
       Generic tools: `iterFaces_count`, `iterEdges_count` (darts touched by an edit listed in `M`), `iterVertices_count`
@@ -18,8 +18,9 @@
   (3) swap: `C15_swap_cells` (who shares a vertex with whom afterwards) and `C15_swap_moves_corners` (finding D9 as a
       theorem: the end points keep their values, the two opposite corners become `(C + A)/2` or `((C + A)/2 + C)/2`).
       Both value theorems follow the vertex values at DART level through the sews (Lemmas/RemeshValues.lean).
-  (4) `C15_collapse_endpoint_interior`: the anchor-driven collapse (`Collapsible::Left`) on an interior configuration:
-      well-formedness, the six flagged darts, the re-gluing, the frame — unconditionally (`TrJ` of Props/C15b.lean).
+  (4) `C15_collapse_endpoint_interior` (`Collapsible::Left`) and `C15_collapse_endpoint_interior_right` (`Right`): the
+      anchor-driven collapse on an interior configuration: well-formedness, the six flagged darts, the re-gluing, the
+      frame — unconditionally (`TrJ` of Props/C15b.lean, `collapse_base_core`).
   (5) `C15_six_distinct`: the six darts around an interior edge are pairwise distinct as soon as the two faces are
       different closed triangles that are not loops.
 -/
@@ -2803,21 +2804,12 @@ theorem collapseBase_flags (f : BF) (l r a b c d xa xd : Nat)
     simp [Ne.symm d9, Ne.symm d8, Ne.symm d5, Ne.symm d2, d5, d2, ka]
   simp only [baseU, halfBaseU, e1, e2]
 
-/-- **C15 (4), collapse towards an end point (`Collapsible::Left`), interior configuration**: on ANY well-formed 2-map,
-    whenever the anchors make `is_collapsible(e)` answer `Left` and `collapse_edge(e)` itself (no assertion added)
-    succeeds on an interior edge whose two faces are closed triangles `e → a → b`, `r → c → d` (`r = β2 e`), whose sides
-    `a = β1 e` and `d = β0 r` are interior too (`xa = β2 a`, `xd = β2 d`, with `pa = β0 xa`, `qa = β1 xa`, `pd = β0 xd`,
-    `qd = β1 xd` the neighbours of `xa`, `xd` in their faces), the twelve darts being pairwise distinct, then
-    * the two 1-sews of each half were handed non-null darts and every flagged dart is free: the resulting map is WELL
-      FORMED, unconditionally;
-    * exactly the six darts `e, a, xa, r, d, xd` are flagged, all their β images are null — the kernel removes the dart
-      `xa` (`xd`) of the NEIGHBOURING face, not `b` (`c`);
-    * `b` takes the place of `xa` in its face (`pa → b → qa`), `c` that of `xd` (`pd → c → qd`), both keep their β2;
-    * every image of every other dart and every other flag is unchanged.
-    (With `β2 a` or `β2 d` null the kernel skips the removal: finding D15e.) -/
-theorem C15_collapse_endpoint_interior (cfg : Cfg Val) (m m' : Map Val) (e v : Nat) (hwf : WF 3 m) (he : C01.InUse m e)
-    (hleft : (run (isCollapsible cfg m.n e) m).1 = .ok .left)
-    (h : run (collapseEdge cfg m.n e) m = (.ok v, m'))
+/-- the editing part of the end-point collapse, for the base dart `e` (used for `Left` with the dart of the call, for
+    `Right` with its β2 image) -/
+theorem collapse_base_core (cfg : Cfg Val) (m m' : Map Val) (e vid : Nat) (hwf : WF 3 m) (he : C01.InUse m e)
+    (r1 : run (collapseEdgeToBase cfg m.n (m.β 0 e) e (m.β 1 e) (m.β 0 (m.β 2 e)) (m.β 2 e) (m.β 1 (m.β 2 e))) m =
+      (.ok vid, m'))
+    (gl : m.β 1 (m.β 1 e) = m.β 0 e) (gr : m.β 1 (m.β 1 (m.β 2 e)) = m.β 0 (m.β 2 e))
     (hr0 : m.β 2 e ≠ 0) (hb : m.β 0 e ≠ 0) (hd : m.β 0 (m.β 2 e) ≠ 0)
     (hx : m.β 2 (m.β 1 e) ≠ 0 ∧ m.β 0 (m.β 2 (m.β 1 e)) ≠ 0 ∧ m.β 1 (m.β 2 (m.β 1 e)) ≠ 0 ∧
       m.β 2 (m.β 0 (m.β 2 e)) ≠ 0 ∧ m.β 0 (m.β 2 (m.β 0 (m.β 2 e))) ≠ 0 ∧ m.β 1 (m.β 2 (m.β 0 (m.β 2 e))) ≠ 0)
@@ -2842,17 +2834,6 @@ theorem C15_collapse_endpoint_interior (cfg : Cfg Val) (m m' : Map Val) (e v : N
     (∀ x, x ∉ [e, m.β 1 e, m.β 2 (m.β 1 e), m.β 2 e, m.β 0 (m.β 2 e), m.β 2 (m.β 0 (m.β 2 e))] →
       m'.unused x = m.unused x) := by
   have hn := he.2.1
-  rw [C15_collapse_guards cfg m.n e m (fun i d hi hd => (hwf.toSized.okβ i d).2 ⟨hi, hd⟩)
-    (fun i d hi hd => hwf.range i hi d hd) hn] at h
-  simp only [he.1, if_false] at h
-  by_cases gl : m.β 1 (m.β 1 e) = m.β 0 e
-  swap
-  · simp [gl] at h
-  simp only [gl, ne_eq, not_true_eq_false, if_false] at h
-  by_cases gr : m.β 1 (m.β 1 (m.β 2 e)) = m.β 0 (m.β 2 e)
-  swap
-  · simp [gr, hr0] at h
-  simp only [gr, not_true_eq_false, and_false, if_false] at h
   obtain ⟨xa0, pa0, qa0, xd0, pd0, qd0⟩ := hx
   have hr : m.β 2 e < m.n := hwf.range 2 (by omega) e hn
   have a0 : m.β 1 e ≠ 0 := fun hh => hb (by rw [← gl, hh]; exact hwf.null 1 (by omega))
@@ -2868,24 +2849,6 @@ theorem C15_collapse_endpoint_interior (cfg : Cfg Val) (m m' : Map Val) (e v : N
   have Lb := live_image hwf (by omega : 0 < 3) hn hb
   have Lc := live_image hwf (by omega : 1 < 3) hr c0
   have Ld := live_image hwf (by omega : 0 < 3) hr hd
-  -- the body: the anchors choose `Left`
-  unfold collapseBodyG at h
-  obtain ⟨cc, hc0, h⟩ := ro_bind_ok (ro_isCollapsible _ _ _) h
-  rw [hc0] at hleft
-  simp only [Out.ok.injEq] at hleft
-  subst hleft
-  simp only at h
-  have eqk : edgeToBaseG (fun _ => pure ()) cfg m.n (m.β 0 e) e (m.β 1 e) (m.β 0 (m.β 2 e)) (m.β 2 e)
-      (m.β 1 (m.β 2 e)) = collapseEdgeToBase cfg m.n (m.β 0 e) e (m.β 1 e) (m.β 0 (m.β 2 e)) (m.β 2 e)
-      (m.β 1 (m.β 2 e)) := rfl
-  rw [eqk] at h
-  obtain ⟨vid, m1, r1, h2⟩ := run_bind_ok h
-  obtain ⟨ok, _, h3⟩ := ro_bind_ok (ro_isOrbitOrientationConsistent _ _) h2
-  have em : m' = m1 := by
-    cases ok
-    · simp at h3
-    · simp at h3; exact h3.2.symm
-  subst em
   -- symbolic execution
   have er := (hwf.invol 2 (by omega) (by omega) e hn hr0).1
   have ev := collapseBase_chain_eval m.β e (m.β 2 e) (m.β 1 e) (m.β 0 e) (m.β 1 (m.β 2 e)) (m.β 0 (m.β 2 e))
@@ -2992,6 +2955,441 @@ theorem C15_collapse_endpoint_interior (cfg : Cfg Val) (m m' : Map Val) (e v : N
     rw [hU]
     simp only [rd_wr]
     simp [Ne.symm x1, Ne.symm x2, Ne.symm x3, Ne.symm x4, Ne.symm x5, Ne.symm x6]
+
+
+
+/-- **C15 (4), collapse towards an end point (`Collapsible::Left`), interior configuration**: on ANY well-formed 2-map,
+    whenever the anchors make `is_collapsible(e)` answer `Left` and `collapse_edge(e)` itself (no assertion added)
+    succeeds on an interior edge whose two faces are closed triangles `e → a → b`, `r → c → d` (`r = β2 e`), whose sides
+    `a = β1 e` and `d = β0 r` are interior too (`xa = β2 a`, `xd = β2 d`, with `pa = β0 xa`, `qa = β1 xa`, `pd = β0 xd`,
+    `qd = β1 xd` the neighbours of `xa`, `xd` in their faces), the twelve darts being pairwise distinct, then
+    * the two 1-sews of each half were handed non-null darts and every flagged dart is free: the resulting map is WELL
+      FORMED, unconditionally;
+    * exactly the six darts `e, a, xa, r, d, xd` are flagged, all their β images are null — the kernel removes the dart
+      `xa` (`xd`) of the NEIGHBOURING face, not `b` (`c`);
+    * `b` takes the place of `xa` in its face (`pa → b → qa`), `c` that of `xd` (`pd → c → qd`), both keep their β2;
+    * every image of every other dart and every other flag is unchanged.
+    (With `β2 a` or `β2 d` null the kernel skips the removal: finding D15e.) -/
+theorem C15_collapse_endpoint_interior (cfg : Cfg Val) (m m' : Map Val) (e v : Nat) (hwf : WF 3 m) (he : C01.InUse m e)
+    (hleft : (run (isCollapsible cfg m.n e) m).1 = .ok .left)
+    (h : run (collapseEdge cfg m.n e) m = (.ok v, m'))
+    (hr0 : m.β 2 e ≠ 0) (hb : m.β 0 e ≠ 0) (hd : m.β 0 (m.β 2 e) ≠ 0)
+    (hx : m.β 2 (m.β 1 e) ≠ 0 ∧ m.β 0 (m.β 2 (m.β 1 e)) ≠ 0 ∧ m.β 1 (m.β 2 (m.β 1 e)) ≠ 0 ∧
+      m.β 2 (m.β 0 (m.β 2 e)) ≠ 0 ∧ m.β 0 (m.β 2 (m.β 0 (m.β 2 e))) ≠ 0 ∧ m.β 1 (m.β 2 (m.β 0 (m.β 2 e))) ≠ 0)
+    (hnd : [e, m.β 2 e, m.β 1 e, m.β 0 e, m.β 1 (m.β 2 e), m.β 0 (m.β 2 e),
+      m.β 2 (m.β 1 e), m.β 0 (m.β 2 (m.β 1 e)), m.β 1 (m.β 2 (m.β 1 e)),
+      m.β 2 (m.β 0 (m.β 2 e)), m.β 0 (m.β 2 (m.β 0 (m.β 2 e))), m.β 1 (m.β 2 (m.β 0 (m.β 2 e)))].Nodup) :
+    WF 3 m' ∧
+    (∀ x, x ∈ [e, m.β 1 e, m.β 2 (m.β 1 e), m.β 2 e, m.β 0 (m.β 2 e), m.β 2 (m.β 0 (m.β 2 e))] →
+      m'.unused x = true ∧ ∀ i, i < 3 → m'.β i x = 0) ∧
+    (m'.β 1 (m.β 0 (m.β 2 (m.β 1 e))) = m.β 0 e ∧ m'.β 1 (m.β 0 e) = m.β 1 (m.β 2 (m.β 1 e)) ∧
+      m'.β 0 (m.β 0 e) = m.β 0 (m.β 2 (m.β 1 e)) ∧ m'.β 0 (m.β 1 (m.β 2 (m.β 1 e))) = m.β 0 e ∧
+      m'.β 2 (m.β 0 e) = m.β 2 (m.β 0 e)) ∧
+    (m'.β 1 (m.β 0 (m.β 2 (m.β 0 (m.β 2 e)))) = m.β 1 (m.β 2 e) ∧
+      m'.β 1 (m.β 1 (m.β 2 e)) = m.β 1 (m.β 2 (m.β 0 (m.β 2 e))) ∧
+      m'.β 0 (m.β 1 (m.β 2 e)) = m.β 0 (m.β 2 (m.β 0 (m.β 2 e))) ∧
+      m'.β 0 (m.β 1 (m.β 2 (m.β 0 (m.β 2 e)))) = m.β 1 (m.β 2 e) ∧
+      m'.β 2 (m.β 1 (m.β 2 e)) = m.β 2 (m.β 1 (m.β 2 e))) ∧
+    (∀ i x, x ∉ [e, m.β 2 e, m.β 1 e, m.β 0 e, m.β 1 (m.β 2 e), m.β 0 (m.β 2 e),
+      m.β 2 (m.β 1 e), m.β 0 (m.β 2 (m.β 1 e)), m.β 1 (m.β 2 (m.β 1 e)),
+      m.β 2 (m.β 0 (m.β 2 e)), m.β 0 (m.β 2 (m.β 0 (m.β 2 e))), m.β 1 (m.β 2 (m.β 0 (m.β 2 e)))] → m'.β i x = m.β i x) ∧
+    m'.n = m.n ∧
+    (∀ x, x ∉ [e, m.β 1 e, m.β 2 (m.β 1 e), m.β 2 e, m.β 0 (m.β 2 e), m.β 2 (m.β 0 (m.β 2 e))] →
+      m'.unused x = m.unused x) := by
+  have hn := he.2.1
+  rw [C15_collapse_guards cfg m.n e m (fun i d hi hd => (hwf.toSized.okβ i d).2 ⟨hi, hd⟩)
+    (fun i d hi hd => hwf.range i hi d hd) hn] at h
+  simp only [he.1, if_false] at h
+  by_cases gl : m.β 1 (m.β 1 e) = m.β 0 e
+  swap
+  · simp [gl] at h
+  simp only [gl, ne_eq, not_true_eq_false, if_false] at h
+  by_cases gr : m.β 1 (m.β 1 (m.β 2 e)) = m.β 0 (m.β 2 e)
+  swap
+  · simp [gr, hr0] at h
+  simp only [gr, not_true_eq_false, and_false, if_false] at h
+  have hr : m.β 2 e < m.n := hwf.range 2 (by omega) e hn
+  -- the body: the anchors choose `Left`
+  unfold collapseBodyG at h
+  obtain ⟨cc, hc0, h⟩ := ro_bind_ok (ro_isCollapsible _ _ _) h
+  rw [hc0] at hleft
+  simp only [Out.ok.injEq] at hleft
+  subst hleft
+  simp only at h
+  have eqk : edgeToBaseG (fun _ => pure ()) cfg m.n (m.β 0 e) e (m.β 1 e) (m.β 0 (m.β 2 e)) (m.β 2 e)
+      (m.β 1 (m.β 2 e)) = collapseEdgeToBase cfg m.n (m.β 0 e) e (m.β 1 e) (m.β 0 (m.β 2 e)) (m.β 2 e)
+      (m.β 1 (m.β 2 e)) := rfl
+  rw [eqk] at h
+  obtain ⟨vid, m1, r1, h2⟩ := run_bind_ok h
+  obtain ⟨ok, _, h3⟩ := ro_bind_ok (ro_isOrbitOrientationConsistent _ _) h2
+  have em : m' = m1 := by
+    cases ok
+    · simp at h3
+    · simp at h3; exact h3.2.symm
+  subst em
+  exact collapse_base_core cfg m m' e vid hwf he r1 gl gr hr0 hb hd hx hnd
+
+/-- **C15 (4), collapse towards the other end point (`Collapsible::Right`), interior configuration**: the statement of
+    `C15_collapse_endpoint_interior` with the roles of `e` and `r = β2 e` exchanged (the base dart is `r`): the sides
+    `c = β1 r` and `b = β0 e` are interior, the six darts `r, c, β2 c, e, b, β2 b` are flagged and free, `d` takes the
+    place of `β2 c` in its face and `a` that of `β2 b`, everything else is unchanged, the result is well formed -/
+theorem C15_collapse_endpoint_interior_right (cfg : Cfg Val) (m m' : Map Val) (e v : Nat) (hwf : WF 3 m)
+    (he : C01.InUse m e)
+    (hright : (run (isCollapsible cfg m.n e) m).1 = .ok .right)
+    (h : run (collapseEdge cfg m.n e) m = (.ok v, m'))
+    (hr0 : m.β 2 e ≠ 0) (hb : m.β 0 e ≠ 0) (hd : m.β 0 (m.β 2 e) ≠ 0)
+    (hx : m.β 2 (m.β 1 (m.β 2 e)) ≠ 0 ∧ m.β 0 (m.β 2 (m.β 1 (m.β 2 e))) ≠ 0 ∧ m.β 1 (m.β 2 (m.β 1 (m.β 2 e))) ≠ 0 ∧
+      m.β 2 (m.β 0 e) ≠ 0 ∧ m.β 0 (m.β 2 (m.β 0 e)) ≠ 0 ∧ m.β 1 (m.β 2 (m.β 0 e)) ≠ 0)
+    (hnd : [m.β 2 e, e, m.β 1 (m.β 2 e), m.β 0 (m.β 2 e), m.β 1 e, m.β 0 e,
+      m.β 2 (m.β 1 (m.β 2 e)), m.β 0 (m.β 2 (m.β 1 (m.β 2 e))), m.β 1 (m.β 2 (m.β 1 (m.β 2 e))),
+      m.β 2 (m.β 0 e), m.β 0 (m.β 2 (m.β 0 e)), m.β 1 (m.β 2 (m.β 0 e))].Nodup) :
+    WF 3 m' ∧
+    (∀ x, x ∈ [m.β 2 e, m.β 1 (m.β 2 e), m.β 2 (m.β 1 (m.β 2 e)), e, m.β 0 e, m.β 2 (m.β 0 e)] →
+      m'.unused x = true ∧ ∀ i, i < 3 → m'.β i x = 0) ∧
+    (m'.β 1 (m.β 0 (m.β 2 (m.β 1 (m.β 2 e)))) = m.β 0 (m.β 2 e) ∧ m'.β 1 (m.β 0 (m.β 2 e)) = m.β 1 (m.β 2 (m.β 1 (m.β 2 e))) ∧
+      m'.β 0 (m.β 0 (m.β 2 e)) = m.β 0 (m.β 2 (m.β 1 (m.β 2 e))) ∧ m'.β 0 (m.β 1 (m.β 2 (m.β 1 (m.β 2 e)))) = m.β 0 (m.β 2 e) ∧
+      m'.β 2 (m.β 0 (m.β 2 e)) = m.β 2 (m.β 0 (m.β 2 e))) ∧
+    (m'.β 1 (m.β 0 (m.β 2 (m.β 0 e))) = m.β 1 e ∧
+      m'.β 1 (m.β 1 e) = m.β 1 (m.β 2 (m.β 0 e)) ∧
+      m'.β 0 (m.β 1 e) = m.β 0 (m.β 2 (m.β 0 e)) ∧
+      m'.β 0 (m.β 1 (m.β 2 (m.β 0 e))) = m.β 1 e ∧
+      m'.β 2 (m.β 1 e) = m.β 2 (m.β 1 e)) ∧
+    (∀ i x, x ∉ [m.β 2 e, e, m.β 1 (m.β 2 e), m.β 0 (m.β 2 e), m.β 1 e, m.β 0 e,
+      m.β 2 (m.β 1 (m.β 2 e)), m.β 0 (m.β 2 (m.β 1 (m.β 2 e))), m.β 1 (m.β 2 (m.β 1 (m.β 2 e))),
+      m.β 2 (m.β 0 e), m.β 0 (m.β 2 (m.β 0 e)), m.β 1 (m.β 2 (m.β 0 e))] → m'.β i x = m.β i x) ∧
+    m'.n = m.n ∧
+    (∀ x, x ∉ [m.β 2 e, m.β 1 (m.β 2 e), m.β 2 (m.β 1 (m.β 2 e)), e, m.β 0 e, m.β 2 (m.β 0 e)] →
+      m'.unused x = m.unused x) := by
+  have hn := he.2.1
+  rw [C15_collapse_guards cfg m.n e m (fun i d hi hd => (hwf.toSized.okβ i d).2 ⟨hi, hd⟩)
+    (fun i d hi hd => hwf.range i hi d hd) hn] at h
+  simp only [he.1, if_false] at h
+  by_cases gl : m.β 1 (m.β 1 e) = m.β 0 e
+  swap
+  · simp [gl] at h
+  simp only [gl, ne_eq, not_true_eq_false, if_false] at h
+  by_cases gr : m.β 1 (m.β 1 (m.β 2 e)) = m.β 0 (m.β 2 e)
+  swap
+  · simp [gr, hr0] at h
+  simp only [gr, not_true_eq_false, and_false, if_false] at h
+  have hr : m.β 2 e < m.n := hwf.range 2 (by omega) e hn
+  have er := (hwf.invol 2 (by omega) (by omega) e hn hr0).1
+  have Lr := live_image hwf (by omega : 2 < 3) hn hr0
+  -- the body: the anchors choose `Right`
+  unfold collapseBodyG at h
+  obtain ⟨cc, hc0, h⟩ := ro_bind_ok (ro_isCollapsible _ _ _) h
+  rw [hc0] at hright
+  simp only [Out.ok.injEq] at hright
+  subst hright
+  simp only at h
+  have eqk : edgeToBaseG (fun _ => pure ()) cfg m.n (m.β 0 (m.β 2 e)) (m.β 2 e) (m.β 1 (m.β 2 e)) (m.β 0 e) e
+      (m.β 1 e) = collapseEdgeToBase cfg m.n (m.β 0 (m.β 2 e)) (m.β 2 e) (m.β 1 (m.β 2 e)) (m.β 0 e) e
+      (m.β 1 e) := rfl
+  rw [eqk] at h
+  obtain ⟨vid, m1, r1, h2⟩ := run_bind_ok h
+  obtain ⟨ok, _, h3⟩ := ro_bind_ok (ro_isOrbitOrientationConsistent _ _) h2
+  have em : m' = m1 := by
+    cases ok
+    · simp at h3
+    · simp at h3; exact h3.2.symm
+  subst em
+  have k := collapse_base_core cfg m m' (m.β 2 e) vid hwf Lr (by rw [er]; exact r1) gr (by rw [er]; exact gl)
+    (by rw [er]; exact he.1) hd (by rw [er]; exact hb) (by rw [er]; exact hx) (by rw [er]; exact hnd)
+  simp only [er] at k
+  exact k
+
+/-! ## (1) two more edge counts -/
+
+/-- **C15 (1), edges, inner cut**: before the call `iter_edges` counts the edge `{e, r}` and the six spare darts, after it
+    the four edges `{e, n6}`, `{r, n3}`, `{n1, n2}`, `{n4, n5}`; every other edge is counted as before:
+    `#edges' + 3 = #edges` — the MESH (six spare darts = six edges before) gains three edges -/
+theorem C15_cutInner_edge_count (cfg : Cfg Val) (m m' : Map Val) (e n1 n2 n3 n4 n5 n6 : Nat) (hwf : WF 3 m)
+    (he : C01.InUse m e)
+    (h : run (cutInnerEdge cfg m.n e n1 n2 n3 n4 n5 n6) m = (.ok (), m'))
+    (hr0 : m.β 2 e ≠ 0)
+    (htl : m.β 1 (m.β 1 e) = m.β 0 e) (hb : m.β 0 e ≠ 0)
+    (htr : m.β 1 (m.β 1 (m.β 2 e)) = m.β 0 (m.β 2 e)) (hd : m.β 0 (m.β 2 e) ≠ 0)
+    (hs : ∀ x, x ∈ [n1, n2, n3, n4, n5, n6] → Spare m x)
+    (hnd : [e, m.β 2 e, m.β 1 e, m.β 0 e, m.β 1 (m.β 2 e), m.β 0 (m.β 2 e), n1, n2, n3, n4, n5, n6].Nodup) :
+    (iterEdges2 m').length + 3 = (iterEdges2 m).length := by
+  have hn := he.2.1
+  have hr : m.β 2 e < m.n := hwf.range 2 (by omega) e hn
+  have er := (hwf.invol 2 (by omega) (by omega) e hn hr0).1
+  have Lr := live_image hwf (by omega : 2 < 3) hn hr0
+  obtain ⟨hw', _⟩ := C15_cutInner_faces cfg m m' e n1 n2 n3 n4 n5 n6 hwf he h hr0 htl hb htr hd hs hnd
+  obtain ⟨_, _, ⟨⟨u1, u2⟩, ⟨u3, u4⟩, ⟨u5, u6⟩, ⟨u7, u8⟩, u9⟩, _, hn', hu⟩ :=
+    C15_cutInner_topology cfg m m' e n1 n2 n3 n4 n5 n6 hwf hn h hr0 htl hb htr hd hnd
+  have hu' : ∀ d, m'.unused d = m.unused d := fun d => by unfold Map.unused; rw [hu]
+  have hnd' := hnd
+  simp only [List.nodup_cons, List.mem_cons, List.mem_nil_iff, not_or, or_false, List.nodup_nil, and_true] at hnd'
+  obtain ⟨⟨q1, q2, q3, q4, q5, q6, q7, q8, q9, q10, q11⟩, ⟨q12, q13, q14, q15, q16, q17, q18, q19, q20, q21⟩, ⟨q22, q23, q24, q25, q26, q27, q28, q29, q30⟩, ⟨q31, q32, q33, q34, q35, q36, q37, q38⟩, ⟨q39, q40, q41, q42, q43, q44, q45⟩, ⟨q46, q47, q48, q49, q50, q51⟩, ⟨q52, q53, q54, q55, q56⟩, ⟨q57, q58, q59, q60⟩, ⟨q61, q62, q63⟩, ⟨q64, q65⟩, q66, _⟩ := hnd'
+  have s1 := hs n1 (by simp); have s2 := hs n2 (by simp); have s3 := hs n3 (by simp)
+  have s4 := hs n4 (by simp); have s5 := hs n5 (by simp); have s6 := hs n6 (by simp)
+  have sp2 : m.β 2 n1 = 0 ∧ m.β 2 n2 = 0 ∧ m.β 2 n3 = 0 ∧ m.β 2 n4 = 0 ∧ m.β 2 n5 = 0 ∧ m.β 2 n6 = 0 :=
+    ⟨s1.β 2 (by omega), s2.β 2 (by omega), s3.β 2 (by omega), s4.β 2 (by omega), s5.β 2 (by omega), s6.β 2 (by omega)⟩
+  -- identifiers before and after
+  have idO : ∀ d, d ≠ 0 → d < m.n → cellId m .edge d = (if m.β 2 d = 0 then d else min (m.β 2 d) d) :=
+    fun d d0 dn => edgeId_eq hwf d0 dn
+  have idN : ∀ d, d ≠ 0 → d < m.n → cellId m' .edge d = (if m'.β 2 d = 0 then d else min (m'.β 2 d) d) :=
+    fun d d0 dn => edgeId_eq hw' d0 (by rw [hn']; exact dn)
+  have n0 : n1 ≠ 0 ∧ n2 ≠ 0 ∧ n3 ≠ 0 ∧ n4 ≠ 0 ∧ n5 ≠ 0 ∧ n6 ≠ 0 := ⟨s1.1.1, s2.1.1, s3.1.1, s4.1.1, s5.1.1, s6.1.1⟩
+  have nn : n1 < m.n ∧ n2 < m.n ∧ n3 < m.n ∧ n4 < m.n ∧ n5 < m.n ∧ n6 < m.n :=
+    ⟨s1.1.2.1, s2.1.2.1, s3.1.2.1, s4.1.2.1, s5.1.2.1, s6.1.2.1⟩
+  have oe : cellId m .edge e = min (m.β 2 e) e := by rw [idO e he.1 hn]; simp [hr0]
+  have or' : cellId m .edge (m.β 2 e) = min (m.β 2 e) e := by rw [idO _ hr0 hr, er]; simp [he.1, Nat.min_comm]
+  have o1 : cellId m .edge n1 = n1 := by rw [idO _ n0.1 nn.1]; simp [sp2]
+  have o2 : cellId m .edge n2 = n2 := by rw [idO _ n0.2.1 nn.2.1]; simp [sp2]
+  have o3 : cellId m .edge n3 = n3 := by rw [idO _ n0.2.2.1 nn.2.2.1]; simp [sp2]
+  have o4 : cellId m .edge n4 = n4 := by rw [idO _ n0.2.2.2.1 nn.2.2.2.1]; simp [sp2]
+  have o5 : cellId m .edge n5 = n5 := by rw [idO _ n0.2.2.2.2.1 nn.2.2.2.2.1]; simp [sp2]
+  have o6 : cellId m .edge n6 = n6 := by rw [idO _ n0.2.2.2.2.2 nn.2.2.2.2.2]; simp [sp2]
+  have ne' : cellId m' .edge e = min n6 e := by rw [idN e he.1 hn, u1]; simp [n0]
+  have nr : cellId m' .edge (m.β 2 e) = min n3 (m.β 2 e) := by rw [idN _ hr0 hr, u3]; simp [n0]
+  have w1 : cellId m' .edge n1 = min n2 n1 := by rw [idN _ n0.1 nn.1, u5]; simp [n0]
+  have w2 : cellId m' .edge n2 = min n2 n1 := by rw [idN _ n0.2.1 nn.2.1, u6]; simp [n0, Nat.min_comm]
+  have w3 : cellId m' .edge n3 = min n3 (m.β 2 e) := by rw [idN _ n0.2.2.1 nn.2.2.1, u4]; simp [hr0, Nat.min_comm]
+  have w4 : cellId m' .edge n4 = min n5 n4 := by rw [idN _ n0.2.2.2.1 nn.2.2.2.1, u7]; simp [n0]
+  have w5 : cellId m' .edge n5 = min n5 n4 := by rw [idN _ n0.2.2.2.2.1 nn.2.2.2.2.1, u8]; simp [n0, Nat.min_comm]
+  have w6 : cellId m' .edge n6 = min n6 e := by rw [idN _ n0.2.2.2.2.2 nn.2.2.2.2.2, u2]; simp [he.1, Nat.min_comm]
+  have cnt := iterEdges_count hwf hw' hn' [e, m.β 2 e, n1, n2, n3, n4, n5, n6]
+    [min (m.β 2 e) e, n1, n2, n3, n4, n5, n6] [min n6 e, min n3 (m.β 2 e), min n2 n1, min n5 n4]
+    (fun d _ => hu' d) (fun y hy => u9 y hy) ?_ ?_ ?_ ?_ ?_ ?_
+  · simp at cnt; omega
+  · intro y hy v hv
+    simp only [List.mem_cons, List.mem_nil_iff, or_false] at hy
+    simp only [g2, List.mem_cons, List.mem_nil_iff, or_false] at hv
+    rcases hy with rfl | rfl | rfl | rfl | rfl | rfl | rfl | rfl <;> subst hv <;> simp [er, sp2]
+  · intro y hy v hv
+    simp only [List.mem_cons, List.mem_nil_iff, or_false] at hy
+    simp only [g2, List.mem_cons, List.mem_nil_iff, or_false] at hv
+    rcases hy with rfl | rfl | rfl | rfl | rfl | rfl | rfl | rfl <;> subst hv <;> simp [u1, u2, u3, u4, u5, u6, u7, u8]
+  · have a1 := min2_ne1 q16 q6
+    have a2 := min2_ne1 q17 q7
+    have a3 := min2_ne1 q18 q8
+    have a4 := min2_ne1 q19 q9
+    have a5 := min2_ne1 q20 q10
+    have a6 := min2_ne1 q21 q11
+    simp [a1, a2, a3, a4, a5, a6, q52, q53, q54, q55, q56, q57, q58, q59, q60, q61, q62, q63, q64, q65, q66]
+  · have b1 := min2_ne (Ne.symm q63) (Ne.symm q21) q8 q1
+    have b2 := min2_ne (Ne.symm q60) (Ne.symm q56) q7 q6
+    have b3 := min2_ne (Ne.symm q66) (Ne.symm q65) q10 q9
+    have b4 := min2_ne (Ne.symm q57) (Ne.symm q53) q17 q16
+    have b5 := min2_ne q62 q61 q20 q19
+    have b6 := min2_ne q59 q58 q55 q54
+    simp [b1, b2, b3, b4, b5, b6]
+  · intro x
+    simp only [List.mem_cons, List.mem_nil_iff, or_false]
+    constructor
+    · rintro (rfl | rfl | rfl | rfl | rfl | rfl | rfl)
+      · exact ⟨e, by simp, he.1, hn, he.2.2, oe⟩
+      · exact ⟨_, by simp, s1.1.1, s1.1.2.1, s1.1.2.2, o1⟩
+      · exact ⟨_, by simp, s2.1.1, s2.1.2.1, s2.1.2.2, o2⟩
+      · exact ⟨_, by simp, s3.1.1, s3.1.2.1, s3.1.2.2, o3⟩
+      · exact ⟨_, by simp, s4.1.1, s4.1.2.1, s4.1.2.2, o4⟩
+      · exact ⟨_, by simp, s5.1.1, s5.1.2.1, s5.1.2.2, o5⟩
+      · exact ⟨_, by simp, s6.1.1, s6.1.2.1, s6.1.2.2, o6⟩
+    · rintro ⟨d, hdM, _, _, _, rfl⟩
+      rcases hdM with rfl | rfl | rfl | rfl | rfl | rfl | rfl | rfl
+      · exact Or.inl oe
+      · exact Or.inl or'
+      · exact Or.inr (Or.inl o1)
+      · exact Or.inr (Or.inr (Or.inl o2))
+      · exact Or.inr (Or.inr (Or.inr (Or.inl o3)))
+      · exact Or.inr (Or.inr (Or.inr (Or.inr (Or.inl o4))))
+      · exact Or.inr (Or.inr (Or.inr (Or.inr (Or.inr (Or.inl o5)))))
+      · exact Or.inr (Or.inr (Or.inr (Or.inr (Or.inr (Or.inr o6)))))
+  · intro x
+    simp only [List.mem_cons, List.mem_nil_iff, or_false]
+    constructor
+    · rintro (rfl | rfl | rfl | rfl)
+      · exact ⟨e, by simp, he.1, hn, by rw [hu']; exact he.2.2, ne'⟩
+      · exact ⟨m.β 2 e, by simp, hr0, hr, by rw [hu']; exact Lr.2.2, nr⟩
+      · exact ⟨n1, by simp, s1.1.1, s1.1.2.1, by rw [hu']; exact s1.1.2.2, w1⟩
+      · exact ⟨n4, by simp, s4.1.1, s4.1.2.1, by rw [hu']; exact s4.1.2.2, w4⟩
+    · rintro ⟨d, hdM, _, _, _, rfl⟩
+      rcases hdM with rfl | rfl | rfl | rfl | rfl | rfl | rfl | rfl
+      · exact Or.inl ne'
+      · exact Or.inr (Or.inl nr)
+      · exact Or.inr (Or.inr (Or.inl w1))
+      · exact Or.inr (Or.inr (Or.inl w2))
+      · exact Or.inr (Or.inl w3)
+      · exact Or.inr (Or.inr (Or.inr w4))
+      · exact Or.inr (Or.inr (Or.inr w5))
+      · exact Or.inl w6
+
+
+theorem nodup5_min {e r a b c d xa xb xc xd : Nat} (hnd : [e, r, a, b, c, d, xa, xb, xc, xd].Nodup) :
+    [min r e, min xa a, min xb b, min xc c, min xd d].Nodup ∧ [min xa xb, min xc xd].Nodup := by
+  simp only [List.nodup_cons, List.mem_cons, List.mem_nil_iff, not_or, or_false, List.nodup_nil, and_true] at hnd
+  obtain ⟨⟨p01, p02, p03, p04, p05, p06, p07, p08, p09⟩, ⟨p12, p13, p14, p15, p16, p17, p18, p19⟩, ⟨p23, p24, p25, p26, p27, p28, p29⟩, ⟨p34, p35, p36, p37, p38, p39⟩, ⟨p45, p46, p47, p48, p49⟩, ⟨p56, p57, p58, p59⟩, ⟨p67, p68, p69⟩, ⟨p78, p79⟩, p89, _⟩ := hnd
+  have t1 := min2_ne p16 p12 p06 p02
+  have t2 := min2_ne p17 p13 p07 p03
+  have t3 := min2_ne p18 p14 p08 p04
+  have t4 := min2_ne p19 p15 p09 p05
+  have t5 := min2_ne p67 (Ne.symm p36) p27 p23
+  have t6 := min2_ne p68 (Ne.symm p46) p28 p24
+  have t7 := min2_ne p69 (Ne.symm p56) p29 p25
+  have t8 := min2_ne p78 (Ne.symm p47) p38 p34
+  have t9 := min2_ne p79 (Ne.symm p57) p39 p35
+  have t10 := min2_ne p89 (Ne.symm p58) p49 p45
+  have t0 := min2_ne p68 p69 p78 p79
+  simp [t1, t2, t3, t4, t5, t6, t7, t8, t9, t10, t0]
+
+/-- **C15 (1), edges, interior midpoint collapse**: the edge `{e, r}` disappears and the four other sides of the two
+    triangles are glued in pairs with their neighbours (`{a, xa}, {b, xb}` become `{xa, xb}`; `{c, xc}, {d, xd}` become
+    `{xc, xd}`): `#edges' + 3 = #edges` -/
+theorem C15_collapse_midpoint_edge_count (cfg : Cfg Val) (m m' : Map Val) (e v : Nat) (hwf : WF 3 m) (he : C01.InUse m e)
+    (hreg : regd cfg stVA = false)
+    (h : run (collapseEdge cfg m.n e) m = (.ok v, m'))
+    (hr0 : m.β 2 e ≠ 0) (hb : m.β 0 e ≠ 0) (hd : m.β 0 (m.β 2 e) ≠ 0)
+    (hx : m.β 2 (m.β 1 e) ≠ 0 ∧ m.β 2 (m.β 0 e) ≠ 0 ∧ m.β 2 (m.β 1 (m.β 2 e)) ≠ 0 ∧ m.β 2 (m.β 0 (m.β 2 e)) ≠ 0)
+    (hnd : [e, m.β 2 e, m.β 1 e, m.β 0 e, m.β 1 (m.β 2 e), m.β 0 (m.β 2 e), m.β 2 (m.β 1 e), m.β 2 (m.β 0 e),
+      m.β 2 (m.β 1 (m.β 2 e)), m.β 2 (m.β 0 (m.β 2 e))].Nodup) :
+    (iterEdges2 m').length + 3 = (iterEdges2 m).length := by
+  have hn := he.2.1
+  obtain ⟨hw', fl, ⟨gb, ga, gd, gc⟩, frame, _, _, hn', hu⟩ :=
+    C15_collapse_midpoint_interior cfg m m' e v hwf he hreg h hr0 hb hd hx hnd
+  obtain ⟨xa0, xb0, xc0, xd0⟩ := hx
+  have hr : m.β 2 e < m.n := hwf.range 2 (by omega) e hn
+  have er := (hwf.invol 2 (by omega) (by omega) e hn hr0).1
+  have hbn : m.β 0 e < m.n := hwf.range 0 (by omega) e hn
+  have hdn : m.β 0 (m.β 2 e) < m.n := hwf.range 0 (by omega) _ hr
+  have ha : m.β 1 e < m.n := hwf.range 1 (by omega) e hn
+  have hc : m.β 1 (m.β 2 e) < m.n := hwf.range 1 (by omega) _ hr
+  have a0 : m.β 1 e ≠ 0 := by intro hh; rw [hh, hwf.null 2 (by omega)] at xa0; exact xa0 rfl
+  have c0 : m.β 1 (m.β 2 e) ≠ 0 := by intro hh; rw [hh, hwf.null 2 (by omega)] at xc0; exact xc0 rfl
+  have Lr := live_image hwf (by omega : 2 < 3) hn hr0
+  have La := live_image hwf (by omega : 1 < 3) hn a0
+  have Lb := live_image hwf (by omega : 0 < 3) hn hb
+  have Lc := live_image hwf (by omega : 1 < 3) hr c0
+  have Ld := live_image hwf (by omega : 0 < 3) hr hd
+  have Lxa := live_image hwf (by omega : 2 < 3) ha xa0
+  have Lxb := live_image hwf (by omega : 2 < 3) hbn xb0
+  have Lxc := live_image hwf (by omega : 2 < 3) hc xc0
+  have Lxd := live_image hwf (by omega : 2 < 3) hdn xd0
+  have ia := (hwf.invol 2 (by omega) (by omega) _ ha xa0).1
+  have ib := (hwf.invol 2 (by omega) (by omega) _ hbn xb0).1
+  have ic := (hwf.invol 2 (by omega) (by omega) _ hc xc0).1
+  have id' := (hwf.invol 2 (by omega) (by omega) _ hdn xd0).1
+  have idO : ∀ d, d ≠ 0 → d < m.n → cellId m .edge d = (if m.β 2 d = 0 then d else min (m.β 2 d) d) :=
+    fun d d0 dn => edgeId_eq hwf d0 dn
+  have idN : ∀ d, d ≠ 0 → d < m.n → cellId m' .edge d = (if m'.β 2 d = 0 then d else min (m'.β 2 d) d) :=
+    fun d d0 dn => edgeId_eq hw' d0 (by rw [hn']; exact dn)
+  have oe : cellId m .edge e = min (m.β 2 e) e := by rw [idO e he.1 hn]; simp [hr0]
+  have or' : cellId m .edge (m.β 2 e) = min (m.β 2 e) e := by rw [idO _ hr0 hr, er]; simp [he.1, Nat.min_comm]
+  have oa : cellId m .edge (m.β 1 e) = min (m.β 2 (m.β 1 e)) (m.β 1 e) := by rw [idO _ a0 ha]; simp [xa0]
+  have oxa : cellId m .edge (m.β 2 (m.β 1 e)) = min (m.β 2 (m.β 1 e)) (m.β 1 e) := by
+    rw [idO _ xa0 Lxa.2.1, ia]; simp [a0, Nat.min_comm]
+  have ob : cellId m .edge (m.β 0 e) = min (m.β 2 (m.β 0 e)) (m.β 0 e) := by rw [idO _ hb hbn]; simp [xb0]
+  have oxb : cellId m .edge (m.β 2 (m.β 0 e)) = min (m.β 2 (m.β 0 e)) (m.β 0 e) := by
+    rw [idO _ xb0 Lxb.2.1, ib]; simp [hb, Nat.min_comm]
+  have oc : cellId m .edge (m.β 1 (m.β 2 e)) = min (m.β 2 (m.β 1 (m.β 2 e))) (m.β 1 (m.β 2 e)) := by
+    rw [idO _ c0 hc]; simp [xc0]
+  have oxc : cellId m .edge (m.β 2 (m.β 1 (m.β 2 e))) = min (m.β 2 (m.β 1 (m.β 2 e))) (m.β 1 (m.β 2 e)) := by
+    rw [idO _ xc0 Lxc.2.1, ic]; simp [c0, Nat.min_comm]
+  have od : cellId m .edge (m.β 0 (m.β 2 e)) = min (m.β 2 (m.β 0 (m.β 2 e))) (m.β 0 (m.β 2 e)) := by
+    rw [idO _ hd hdn]; simp [xd0]
+  have oxd : cellId m .edge (m.β 2 (m.β 0 (m.β 2 e))) = min (m.β 2 (m.β 0 (m.β 2 e))) (m.β 0 (m.β 2 e)) := by
+    rw [idO _ xd0 Lxd.2.1, id']; simp [hd, Nat.min_comm]
+  have nxb : cellId m' .edge (m.β 2 (m.β 0 e)) = min (m.β 2 (m.β 1 e)) (m.β 2 (m.β 0 e)) := by
+    rw [idN _ xb0 Lxb.2.1, gb]; simp [xa0]
+  have nxa : cellId m' .edge (m.β 2 (m.β 1 e)) = min (m.β 2 (m.β 1 e)) (m.β 2 (m.β 0 e)) := by
+    rw [idN _ xa0 Lxa.2.1, ga]; simp [xb0, Nat.min_comm]
+  have nxd : cellId m' .edge (m.β 2 (m.β 0 (m.β 2 e))) = min (m.β 2 (m.β 1 (m.β 2 e))) (m.β 2 (m.β 0 (m.β 2 e))) := by
+    rw [idN _ xd0 Lxd.2.1, gd]; simp [xc0]
+  have nxc : cellId m' .edge (m.β 2 (m.β 1 (m.β 2 e))) = min (m.β 2 (m.β 1 (m.β 2 e))) (m.β 2 (m.β 0 (m.β 2 e))) := by
+    rw [idN _ xc0 Lxc.2.1, gc]; simp [xd0, Nat.min_comm]
+  have six : ∀ x, x ∈ [e, m.β 2 e, m.β 1 e, m.β 0 e, m.β 1 (m.β 2 e), m.β 0 (m.β 2 e)] → m'.unused x = true :=
+    fun x hx => (fl x hx).1
+  have keepu : ∀ x, x ∉ [e, m.β 2 e, m.β 1 e, m.β 0 e, m.β 1 (m.β 2 e), m.β 0 (m.β 2 e)] → m'.unused x = m.unused x := hu
+  have hnd' := hnd
+  simp only [List.nodup_cons, List.mem_cons, List.mem_nil_iff, not_or, or_false, List.nodup_nil, and_true] at hnd'
+  obtain ⟨⟨_, _, _, _, _, e7, e8, e9, e10⟩, ⟨_, _, _, _, r7, r8, r9, r10⟩, ⟨_, _, _, a7, a8, a9, a10⟩,
+    ⟨_, _, b7, b8, b9, b10⟩, ⟨_, c7, c8, c9, c10⟩, ⟨d7, d8, d9, d10⟩, _⟩ := hnd'
+  have nd := nodup5_min hnd
+  have cnt := iterEdges_count hwf hw' hn'
+    [e, m.β 2 e, m.β 1 e, m.β 0 e, m.β 1 (m.β 2 e), m.β 0 (m.β 2 e), m.β 2 (m.β 1 e), m.β 2 (m.β 0 e),
+      m.β 2 (m.β 1 (m.β 2 e)), m.β 2 (m.β 0 (m.β 2 e))]
+    [min (m.β 2 e) e, min (m.β 2 (m.β 1 e)) (m.β 1 e), min (m.β 2 (m.β 0 e)) (m.β 0 e),
+      min (m.β 2 (m.β 1 (m.β 2 e))) (m.β 1 (m.β 2 e)), min (m.β 2 (m.β 0 (m.β 2 e))) (m.β 0 (m.β 2 e))]
+    [min (m.β 2 (m.β 1 e)) (m.β 2 (m.β 0 e)), min (m.β 2 (m.β 1 (m.β 2 e))) (m.β 2 (m.β 0 (m.β 2 e)))]
+    ?_ (fun y hy => frame 2 y hy) ?_ ?_ nd.1 nd.2 ?_ ?_
+  · simp at cnt; omega
+  · intro x hx
+    refine keepu x ?_
+    simp only [List.mem_cons, List.mem_nil_iff, not_or, or_false] at hx ⊢
+    exact ⟨hx.1, hx.2.1, hx.2.2.1, hx.2.2.2.1, hx.2.2.2.2.1, hx.2.2.2.2.2.1⟩
+  · intro y hy w hw
+    simp only [List.mem_cons, List.mem_nil_iff, or_false] at hy
+    simp only [g2, List.mem_cons, List.mem_nil_iff, or_false] at hw
+    rcases hy with rfl | rfl | rfl | rfl | rfl | rfl | rfl | rfl | rfl | rfl <;> subst hw <;> simp [er, ia, ib, ic, id']
+  · intro y hy w hw
+    simp only [List.mem_cons, List.mem_nil_iff, or_false] at hy
+    simp only [g2, List.mem_cons, List.mem_nil_iff, or_false] at hw
+    rcases hy with rfl | rfl | rfl | rfl | rfl | rfl | rfl | rfl | rfl | rfl <;> subst hw
+    · exact Or.inl ((fl _ (by simp)).2 2 (by omega))
+    · exact Or.inl ((fl _ (by simp)).2 2 (by omega))
+    · exact Or.inl ((fl _ (by simp)).2 2 (by omega))
+    · exact Or.inl ((fl _ (by simp)).2 2 (by omega))
+    · exact Or.inl ((fl _ (by simp)).2 2 (by omega))
+    · exact Or.inl ((fl _ (by simp)).2 2 (by omega))
+    · rw [ga]; simp
+    · rw [gb]; simp
+    · rw [gc]; simp
+    · rw [gd]; simp
+  · intro x
+    simp only [List.mem_cons, List.mem_nil_iff, or_false]
+    constructor
+    · rintro (rfl | rfl | rfl | rfl | rfl)
+      · exact ⟨e, by simp, he.1, hn, he.2.2, oe⟩
+      · exact ⟨_, by simp, a0, ha, La.2.2, oa⟩
+      · exact ⟨_, by simp, hb, hbn, Lb.2.2, ob⟩
+      · exact ⟨_, by simp, c0, hc, Lc.2.2, oc⟩
+      · exact ⟨_, by simp, hd, hdn, Ld.2.2, od⟩
+    · rintro ⟨d, hdM, _, _, _, rfl⟩
+      rcases hdM with rfl | rfl | rfl | rfl | rfl | rfl | rfl | rfl | rfl | rfl
+      · exact Or.inl oe
+      · exact Or.inl or'
+      · exact Or.inr (Or.inl oa)
+      · exact Or.inr (Or.inr (Or.inl ob))
+      · exact Or.inr (Or.inr (Or.inr (Or.inl oc)))
+      · exact Or.inr (Or.inr (Or.inr (Or.inr od)))
+      · exact Or.inr (Or.inl oxa)
+      · exact Or.inr (Or.inr (Or.inl oxb))
+      · exact Or.inr (Or.inr (Or.inr (Or.inl oxc)))
+      · exact Or.inr (Or.inr (Or.inr (Or.inr oxd)))
+  · intro x
+    simp only [List.mem_cons, List.mem_nil_iff, or_false]
+    have inuse' : ∀ y, y ∉ [e, m.β 2 e, m.β 1 e, m.β 0 e, m.β 1 (m.β 2 e), m.β 0 (m.β 2 e)] → Live m.n m.u y →
+        m'.unused y = false := by
+      intro y hy Ly
+      rw [keepu y hy]; exact Ly.2.2
+    have xaN : m.β 2 (m.β 1 e) ∉ [e, m.β 2 e, m.β 1 e, m.β 0 e, m.β 1 (m.β 2 e), m.β 0 (m.β 2 e)] := by
+      simp [Ne.symm e7, Ne.symm r7, Ne.symm a7, Ne.symm b7, Ne.symm c7, Ne.symm d7]
+    have xbN : m.β 2 (m.β 0 e) ∉ [e, m.β 2 e, m.β 1 e, m.β 0 e, m.β 1 (m.β 2 e), m.β 0 (m.β 2 e)] := by
+      simp [Ne.symm e8, Ne.symm r8, Ne.symm a8, Ne.symm b8, Ne.symm c8, Ne.symm d8]
+    have xcN : m.β 2 (m.β 1 (m.β 2 e)) ∉ [e, m.β 2 e, m.β 1 e, m.β 0 e, m.β 1 (m.β 2 e), m.β 0 (m.β 2 e)] := by
+      simp [Ne.symm e9, Ne.symm r9, Ne.symm a9, Ne.symm b9, Ne.symm c9, Ne.symm d9]
+    have xdN : m.β 2 (m.β 0 (m.β 2 e)) ∉ [e, m.β 2 e, m.β 1 e, m.β 0 e, m.β 1 (m.β 2 e), m.β 0 (m.β 2 e)] := by
+      simp [Ne.symm e10, Ne.symm r10, Ne.symm a10, Ne.symm b10, Ne.symm c10, Ne.symm d10]
+    constructor
+    · rintro (rfl | rfl)
+      · exact ⟨_, by simp, xa0, Lxa.2.1, inuse' _ xaN Lxa, nxa⟩
+      · exact ⟨_, by simp, xc0, Lxc.2.1, inuse' _ xcN Lxc, nxc⟩
+    · rintro ⟨d, hdM, _, _, hdu, rfl⟩
+      have dead : ∀ y, y ∈ [e, m.β 2 e, m.β 1 e, m.β 0 e, m.β 1 (m.β 2 e), m.β 0 (m.β 2 e)] → m'.unused y = false → False := by
+        intro y hy hh; rw [six y hy] at hh; exact absurd hh (by simp)
+      rcases hdM with rfl | rfl | rfl | rfl | rfl | rfl | rfl | rfl | rfl | rfl
+      · exact (dead _ (by simp) hdu).elim
+      · exact (dead _ (by simp) hdu).elim
+      · exact (dead _ (by simp) hdu).elim
+      · exact (dead _ (by simp) hdu).elim
+      · exact (dead _ (by simp) hdu).elim
+      · exact (dead _ (by simp) hdu).elim
+      · exact Or.inl nxa
+      · exact Or.inl nxb
+      · exact Or.inr nxc
+      · exact Or.inr nxd
 
 
 /-! ## non-vacuity: every theorem above applied to a concrete call -/
@@ -3127,5 +3525,37 @@ example : ∃ m', run (collapseEdge (stdCfg 3 224) flatGrid.n 12) flatGrid = (.o
   have k := C15_collapse_endpoint_interior (stdCfg 3 224) flatGrid _ 12 6 (by decide +kernel) (by decide +kernel) (by decide +kernel) hrun
     (by decide +kernel) (by decide +kernel) (by decide +kernel) (by decide +kernel) (by decide +kernel)
   exact ⟨_, hrun, k.1, (k.2.1 12 (by simp)).1, (k.2.1 _ (by simp)).1⟩
+
+/-- the two remaining edge counts: `cut_inner_edge(2, [12 … 7])` on the unit square with six spare darts (11 edges for
+    the iterator before, 8 after) and `collapse_edge(26)` on `cutGrid` -/
+example : (∃ m', run (cutInnerEdge (stdCfg 3 0) sq6.n 2 12 11 10 9 8 7) sq6 = (.ok (), m') ∧
+      (iterEdges2 sq6).length = 11 ∧ (iterEdges2 m').length + 3 = 11) ∧
+    (∃ m', run (collapseEdge (stdCfg 3 0) cutGrid.n 26) cutGrid = (.ok 3, m') ∧
+      (iterEdges2 m').length + 3 = (iterEdges2 cutGrid).length) := by
+  constructor
+  · have hrun := run_eq_of_fst (p := cutInnerEdge (stdCfg 3 0) sq6.n 2 12 11 10 9 8 7) (m := sq6) (a := ())
+      (by decide +kernel)
+    have hs : ∀ x, x ∈ [12, 11, 10, 9, 8, 7] → Spare sq6 x := by
+      intro x hx
+      simp only [List.mem_cons, List.mem_nil_iff, or_false] at hx
+      rcases hx with rfl | rfl | rfl | rfl | rfl | rfl <;> exact ⟨by decide +kernel, by decide +kernel⟩
+    have ec := C15_cutInner_edge_count (stdCfg 3 0) sq6 _ 2 12 11 10 9 8 7 (by decide +kernel) (by decide +kernel) hrun
+      (by decide +kernel) (by decide +kernel) (by decide +kernel) (by decide +kernel) (by decide +kernel) hs
+      (by decide +kernel)
+    have l2 : (iterEdges2 sq6).length = 11 := by decide +kernel
+    exact ⟨_, hrun, l2, by rw [ec, l2]⟩
+  · have hrun := run_eq_of_fst (p := collapseEdge (stdCfg 3 0) cutGrid.n 26) (m := cutGrid) (a := 3) (by decide +kernel)
+    exact ⟨_, hrun, C15_collapse_midpoint_edge_count (stdCfg 3 0) cutGrid _ 26 3 (by decide +kernel) (by decide +kernel)
+      (by decide +kernel) hrun (by decide +kernel) (by decide +kernel) (by decide +kernel) (by decide +kernel)
+      (by decide +kernel)⟩
+
+/-- `C15_collapse_endpoint_interior_right` on `collapse_edge(6)` of `flatGrid`: the anchors choose `Right`, the call
+    answers `ok 3`, the result is well formed and the dart itself is flagged -/
+example : ∃ m', run (collapseEdge (stdCfg 3 224) flatGrid.n 6) flatGrid = (.ok 3, m') ∧ WF 3 m' ∧ m'.unused 6 = true := by
+  have hrun := run_eq_of_fst (p := collapseEdge (stdCfg 3 224) flatGrid.n 6) (m := flatGrid) (a := 3) (by decide +kernel)
+  have k := C15_collapse_endpoint_interior_right (stdCfg 3 224) flatGrid _ 6 3 (by decide +kernel) (by decide +kernel)
+    (by decide +kernel) hrun (by decide +kernel) (by decide +kernel) (by decide +kernel) (by decide +kernel)
+    (by decide +kernel)
+  exact ⟨_, hrun, k.1, (k.2.1 6 (by simp)).1⟩
 
 end HC.C15
